@@ -277,7 +277,7 @@ func (d *db) iter(start, limit []byte, prefix []byte) kvdb.Iterator {
 func (d *db) iter0(start, limit []byte, prefix []byte) kvdb.Iterator {
 	mu.Lock()
 	defer mu.Unlock()
-	it := &iter{pos: -1}
+	it := &iter{pos: -1, at: -2}
 	for k, v := range d.s.data {
 		kb := []byte(k)
 		if prefix != nil {
@@ -308,10 +308,18 @@ func (d *db) NewIteratorWithPrefix(prefix []byte) kvdb.Iterator {
 	return d.iter(nil, nil, prefix)
 }
 
+// iter mimics what goleveldb's iterators do with the slices they hand out: Key() and Value() return the iterator's own
+// buffers, whose contents change with the next positioning call and are invalid after Release ("the caller should not
+// modify the contents of the returned slice, and its contents may change on the next call to Next"). A caller that keeps
+// such a slice instead of a copy sees it change here exactly as it would over leveldb - deterministically: the buffer is
+// reused in place when it is large enough, and scribbled over before it is replaced by a larger one.
 type iter struct {
 	keys []string
 	vals [][]byte
 	pos  int
+	kbuf []byte
+	vbuf []byte
+	at   int // position kbuf / vbuf hold, -2 = none
 }
 
 func (it *iter) Len() int           { return len(it.keys) }
@@ -321,34 +329,70 @@ func (it *iter) Swap(i, j int) {
 	it.vals[i], it.vals[j] = it.vals[j], it.vals[i]
 }
 func (it *iter) valid() bool { return it.pos >= 0 && it.pos < len(it.keys) }
+
+func refill(buf []byte, src []byte) []byte {
+	if cap(buf) < len(src) {
+		for i := range buf[:cap(buf)] {
+			buf[:cap(buf)][i] = 0xEE
+		}
+		return append(make([]byte, 0, len(src)+8), src...)
+	}
+	old := buf[:cap(buf)]
+	for i := len(src); i < len(old); i++ {
+		old[i] = 0xEE
+	}
+	return append(buf[:0], src...)
+}
+
+// load fills the buffers for the current position (every positioning call invalidates what was handed out before)
+func (it *iter) load() {
+	if it.at == it.pos+1 {
+		return
+	}
+	if it.valid() {
+		it.kbuf = refill(it.kbuf, []byte(it.keys[it.pos]))
+		it.vbuf = refill(it.vbuf, it.vals[it.pos])
+	} else {
+		it.kbuf = refill(it.kbuf, nil)
+		it.vbuf = refill(it.vbuf, nil)
+	}
+	it.at = it.pos + 1
+}
 func (it *iter) Key() []byte {
 	if !it.valid() {
 		return nil
 	}
-	return []byte(it.keys[it.pos])
+	it.load()
+	return it.kbuf
 }
 func (it *iter) Value() []byte {
 	if !it.valid() {
 		return nil
 	}
-	return append([]byte{}, it.vals[it.pos]...)
+	it.load()
+	return it.vbuf
 }
 func (it *iter) Next() bool {
 	if it.pos < len(it.keys) {
 		it.pos++
 	}
+	it.load()
 	return it.valid()
 }
 func (it *iter) Prev() bool {
 	if it.pos >= 0 {
 		it.pos--
 	}
+	it.load()
 	return it.valid()
 }
-func (it *iter) First() bool  { it.pos = 0; return it.valid() }
-func (it *iter) Last() bool   { it.pos = len(it.keys) - 1; return it.valid() }
+func (it *iter) First() bool  { it.pos = 0; it.load(); return it.valid() }
+func (it *iter) Last() bool   { it.pos = len(it.keys) - 1; it.load(); return it.valid() }
 func (it *iter) Error() error { return nil }
-func (it *iter) Release()     {}
+func (it *iter) Release() {
+	it.pos = len(it.keys)
+	it.load()
+}
 
 type batch struct {
 	s    *Store
